@@ -110,7 +110,8 @@ class Buffer:
                 if self.check_buffer_over_data_threshold(b):
                     if self.env.now in self.stored_times:
                         continue
-                    if self.cold[b].has_capacity_for(
+                    if self.hot[b].observations['stored'] and \
+                            self.cold[b].has_capacity_for(
                         self.hot[b].observations['stored'][
                                     -1].total_data_size
                         ):
